@@ -16,7 +16,7 @@ func init() {
 
 func runC08(c *Ctx) {
 	P := c.P
-	c.Explanation = "Decides the accounting clauses structurally: (R-EVICT-PAIR) in every Cache method each departure from the store (Store.Remove of a key found by Check, or Store.Evict) is paired in its block with exactly one eviction callback on that very (key, value), exactly one subtraction of sizeOf(that value) from the size accumulator and exactly one count−1, and none of the three occurs without a departure; an arrival (Store.Store) is paired with count+1 and a size that includes sizeOf(val). (R-LIMIT-LOOP) the only non-decreasing assignment of size stores a value proved ≤ limit by the exit edge of the eviction loop, whose initial value is size + sizeOf(val); a Put larger than the limit returns false before any effect. (R-CHECK-PURE) Has reaches only Store.Check, and lruStore.Check with its callees has an empty effect set — Has does not count as a use. (R-CLOCK) every lastAccess written is the clock value just ticked in the same block; the clock has no other writer. (R-USE-TICK) every successful Access and every Store ticks, stamps and re-inserts on all paths, so Put and successful Get always count as uses. (R-POS-WRITERS, shared with C06) the key→offset index is deleted only after the heap removal, so it stays in step with the heap. Does NOT decide which entry is evicted (victim order needs a correct heap — C05, where F1 is listed — and a history argument) nor agreement with a reference LRU cache."
+	c.Explanation = "Decides the accounting clauses structurally: (R-EVICT-PAIR) in every Cache method each departure from the store (Store.Remove of a key found by Check, or Store.Evict) is paired in its block with exactly one eviction callback on that very (key, value), exactly one subtraction of sizeOf(that value) from the size accumulator and exactly one count−1, and none of the three occurs without a departure; an arrival (Store.Store) is paired with count+1 and a size that includes sizeOf(val). (R-LIMIT-LOOP) the only non-decreasing assignment of size stores a value proved ≤ limit by the exit edge of the eviction loop, whose initial value is size + sizeOf(val); a Put larger than the limit returns false before any effect. (R-CHECK-PURE) Has reaches only Store.Check, and lruStore.Check with its callees has an empty effect set — Has does not count as a use. (R-CLOCK) every lastAccess written is the clock value just ticked in the same block; the clock has no other writer. (R-USE-TICK) every successful Access and every Store ticks, stamps and re-inserts on all paths, so Put and successful Get always count as uses. (R-POS-WRITERS, shared with C06) the key→offset index is deleted only after the heap removal, so it stays in step with the heap. (R-CLEAR-ALL) every return of Clear lies behind a branch edge on which count <= 0 holds. Does NOT decide which entry is evicted (victim order needs a correct heap — C05, where F1 is listed — and a history argument) nor agreement with a reference LRU cache."
 	c.rule("R-EVICT-PAIR", 3, "each departure ↔ exactly one callback(k,v), one size −= sizeOf(v), one count−1 in its block; none of these without a departure; arrival ↔ count+1 and size including sizeOf(val)")
 	c.rule("R-LIMIT-LOOP", 2, "size only receives values ≤ limit (loop exit fact) or decreases by a sizeOf result; the too-big refusal precedes every effect of Put")
 	c.rule("R-CHECK-PURE", 2, "Cache.Has uses only Store.Check; lruStore.Check and its callees have no effects")
@@ -436,6 +436,119 @@ func runC08(c *Ctx) {
 	// ---- R-POS-WRITERS (shared with C06): the key→offset index stays in step with the heap
 	c.rule("R-POS-WRITERS", 4, "lruStore.present has exactly the writers {update callback, Store} and deleters {Remove, Evict}, each deletion after the heap removal; the callback is installed")
 	rulePosWriters(c)
+
+	// ---- R-CLEAR-ALL: Clear returns only once the entry count is known to be ≤ 0
+	c.rule("R-CLEAR-ALL", 1, "every path of Cache.Clear to a return crosses a branch edge on which count ≤ 0 holds")
+	if clear := P.Func("cache", "Cache", "Clear"); clear == nil {
+		c.undecided("ANCHOR", "cache.(*Cache).Clear", 0, "not found")
+	} else {
+		var body *ssa.Function
+		for _, fn := range withClosures(clear) {
+			allInstrs(fn, func(in ssa.Instruction) {
+				if n, _ := invokeName(in); n == "Evict" || n == "Remove" {
+					body = fn
+				}
+			})
+		}
+		if body == nil {
+			c.undecided("R-CLEAR-ALL", "cache.(*Cache).Clear:empties", clear.Pos(), "Clear takes nothing out of the store")
+		} else {
+			// edges on which count ≤ 0 is established
+			est := map[[2]*ssa.BasicBlock]bool{}
+			for _, b := range body.Blocks {
+				if len(b.Instrs) == 0 {
+					continue
+				}
+				iff, ok := b.Instrs[len(b.Instrs)-1].(*ssa.If)
+				if !ok {
+					continue
+				}
+				bo, ok := iff.Cond.(*ssa.BinOp)
+				if !ok {
+					continue
+				}
+				x, y, op := bo.X, bo.Y, bo.Op
+				if _, isK := constInt(x); isK {
+					x, y = y, x
+					switch op {
+					case token.LSS:
+						op = token.GTR
+					case token.LEQ:
+						op = token.GEQ
+					case token.GTR:
+						op = token.LSS
+					case token.GEQ:
+						op = token.LEQ
+					}
+				}
+				k, isK := constInt(y)
+				if !isK || !isLoad(x, countF) {
+					continue
+				}
+				// holds(v): the condition for count = v; the true edge establishes count ≤ 0 when the
+				// condition fails for every v ≥ 1, the false edge when it holds for every v ≥ 1
+				holds := func(v int64) bool {
+					switch op {
+					case token.LSS:
+						return v < k
+					case token.LEQ:
+						return v <= k
+					case token.GTR:
+						return v > k
+					case token.GEQ:
+						return v >= k
+					case token.EQL:
+						return v == k
+					case token.NEQ:
+						return v != k
+					}
+					return true
+				}
+				allHold, noneHold := true, true
+				for _, v := range []int64{1, 2, 3, k - 1, k, k + 1, 1 << 40} {
+					if v < 1 {
+						continue
+					}
+					if holds(v) {
+						noneHold = false
+					} else {
+						allHold = false
+					}
+				}
+				if noneHold {
+					est[[2]*ssa.BasicBlock{b, b.Succs[0]}] = true
+				}
+				if allHold {
+					est[[2]*ssa.BasicBlock{b, b.Succs[1]}] = true
+				}
+			}
+			// a return reachable from the entry without crossing such an edge
+			seen := map[*ssa.BasicBlock]bool{body.Blocks[0]: true}
+			work := []*ssa.BasicBlock{body.Blocks[0]}
+			var badRet *ssa.Return
+			for len(work) > 0 {
+				b := work[len(work)-1]
+				work = work[:len(work)-1]
+				if r, ok := b.Instrs[len(b.Instrs)-1].(*ssa.Return); ok && badRet == nil {
+					badRet = r
+				}
+				for _, s := range b.Succs {
+					if !est[[2]*ssa.BasicBlock{b, s}] && !seen[s] {
+						seen[s] = true
+						work = append(work, s)
+					}
+				}
+			}
+			key := "cache.(*Cache).Clear:returns only when empty"
+			if len(est) == 0 {
+				c.undecided("R-CLEAR-ALL", key, body.Pos(), "Clear never tests the entry count against zero: cannot tell when it considers the cache empty")
+			} else if badRet != nil {
+				c.bad("R-CLEAR-ALL", key, badRet.Pos(), fmt.Sprintf("Clear can return at line %d without having seen count ≤ 0: entries (and their eviction callbacks) can be left behind, e.g. when every entry has size 0", P.Fset.Position(badRet.Pos()).Line))
+			} else {
+				c.ok("R-CLEAR-ALL", key, body.Pos(), fmt.Sprintf("%d establishing edge(s); every return lies behind one", len(est)))
+			}
+		}
+	}
 
 	// ---- R-USE-TICK: a successful Access / a Store always counts as a use
 	c.rule("R-USE-TICK", 2, "every successful return of lruStore.Access and every return of lruStore.Store is preceded on all paths by a clock tick, a lastAccess stamp and a heap insertion")
